@@ -71,3 +71,7 @@ add("C17", "exploration", "exhaustive single-bit / truncation tampering of sampl
 add("C18", FE, "stateful property-based testing over loss/delay/duplication schedules, tick lengths, timeouts, address lists and limit changes, with a reference model of the last authentic fresh packet per side and a bounded-liveness check after faults stop",
     "The harness owns every datagram and both clocks; timeouts are compared with the model at every update (must fire / must not fire, on both sides, regardless of forged or replayed traffic), half-open sessions must vanish at token expiry, denials must be explained by a full server, and after the network heals every client still connecting under the stated preconditions must be connected on both sides within a computed bound.",
     NETNOTE, "DESIGN.md 4/C18")
+
+add("C20", FE, "stateful property-based testing of the real UDP transports on loopback sockets through a harness-owned in-path relay (generated per-datagram faults), lock-step and propagation oracles, end-to-end message oracles",
+    "NetcodeServerTransport and up to six NetcodeClientTransports run over real sockets; the relay drops, duplicates, delays, corrupts and replays datagrams per (client, direction, index); after every server-transport update the message-layer table, the netcode table and the event stream must name the same ids; disconnects decided anywhere must appear as a netcode disconnect datagram within two ticks, end the other side shortly after it is forwarded, and end every such session on both sides after timeout + 3 s of fault-free ticks; gentle cases must never disconnect anybody.",
+    NETNOTE + " Sockets are real (127.0.0.1, ephemeral ports); no threads and no sleeps: the harness thread pumps the relay after every transport call and time is the duration argument.", "DESIGN.md 4/C20")
